@@ -30,6 +30,7 @@ Ops (first argument is always the chain name):
 import contextlib
 import multiprocessing as mp
 import random
+import re
 import sys
 import hashlib
 import io
@@ -377,9 +378,9 @@ def known_finding(op, a, io, mo):
     try:
         if op == 'c18.frombytes':
             pv = int(a[2]) if len(a) > 2 else 60002
-            if not mo.startswith('W:') or mo[2:].startswith(('err:', 'none')):
+            if not mo.endswith('|W') or mo.startswith(('err:', 'none')):
                 return None
-            exp, ids, trunc = _known_wrong_msg(mo[2:], pv)
+            exp, ids, trunc = _known_wrong_msg(mo[:-2], pv)
             exp = 'err:trunc' if trunc else exp
             return sorted(ids)[0] if len(ids) == 1 and io == exp else None
         if op == 'c18.parse':
@@ -404,7 +405,7 @@ def known_finding(op, a, io, mo):
             if len(outs_i) != len(outs_m):
                 return None
             # outputs of P steps, in order, are those of the form pos@msg / err:..@pos; map by walking the steps
-            kinds = [st[0] for st in a if st[:1] in 'FSAP']
+            kinds = [st[0] for st in a if st[:1] in 'FSAPMZGQX']
             if len(kinds) != len(outs_m):
                 return None
             ids, pi = set(), 0
@@ -702,6 +703,29 @@ class C18(Prop):
                         return 'harness:field-values-differ after ' + st[:60]
                 elif hd[0] == 'F':
                     out.append(guarded(lambda: frame(hd[1]).hex()) if hd[1] in regs else 'noreg')
+                elif hd[0] in ('M', 'Z', 'G'):
+                    # other observers of the same live object: msg_ser into a stream, serialize(), GetHash()
+                    def observe(o=regs.get(hd[1]), how=hd[0]):
+                        if how == 'M':
+                            g = io.BytesIO()
+                            o.msg_ser(g)
+                            return g.getvalue().hex()
+                        return (o.serialize() if how == 'Z' else o.GetHash()).hex()
+                    out.append(guarded(observe) if hd[1] in regs else 'noreg')
+                elif hd[0] == 'R':
+                    try:                       # only that repr() ran on the object; its text is not constrained
+                        repr(regs.get(hd[1]))
+                    except Exception:  # noqa: BLE001
+                        pass
+                elif hd[0] == 'Q':
+                    if hd[1] in regs and hd[2] in regs:
+                        out.append(guarded(lambda: 'eq' if regs[hd[1]] == regs[hd[2]] else 'ne'))
+                    else:
+                        out.append('noreg')
+                elif hd[0] == 'X':
+                    b = bytes.fromhex(hd[2])
+                    streams[hd[1]] = io.BytesIO(b)
+                    out.append('len=%d' % len(b))
                 elif hd[0] == 'S':
                     bs = []
                     for r in hd[2:]:
@@ -782,7 +806,7 @@ class C18(Prop):
     def agree(self, c, io, mo):
         """Strict equality on what the property constrains; a difference is tolerated only where the property is
         silent.  The model marks that itself:
-          frame      `O:` = field values outside the wire ranges / the protocol version (WFMsg false);
+          frame      tag `|O` = field values outside the wire ranges / the protocol version (WFMsg false);
           parse      an entry that is not the canonical frame of the message returned (re-framing differs: bytes
                      after the NUL of the command, left-over payload bytes, non-canonical counts), an unknown
                      command (`none`), or an error raised inside msg_deser for a payload whose header, length and
@@ -800,8 +824,16 @@ class C18(Prop):
         if op == 'c18.hist':
             return io == mo          # every step is compared strictly
         if op in ('c18.frame', 'c18.frombytes'):
-            return io == mo[2:] or mo[:2] == 'O:'
+            # the domain tag is the LAST thing in the model's answer: anything else there is a malformed answer
+            if mo[-2:] not in ('|W', '|O'):
+                return False
+            return io == mo[:-2] or mo[-2:] == '|O'
         ii, mm = io.split('~'), mo.split('~')
+        # the model's answer must be well-formed to its end (a tolerated difference further up must not hide a
+        # damaged answer): it closes with `eof` or with an error at a position inside the stream
+        fin = re.fullmatch(r'err:[A-Za-z0-9_:]+@(\d+)(@payload)?', mm[-1])
+        if not (mm[-1] == 'eof' or (fin and int(fin.group(1)) <= len(c['args'][1]) // 2)):
+            return False
         for k in range(max(len(ii), len(mm))):
             a = ii[k] if k < len(ii) else ''
             b = mm[k] if k < len(mm) else ''
@@ -818,12 +850,12 @@ class C18(Prop):
         """[(chain, msg)] -> [bytes | None] through the model's to_bytes; for a sample of in-domain messages the
         executable Spec (independent oracle, `frame_eq_spec`) must give the same bytes"""
         outs = self.ask(['c18.frame\t%s\t%s' % (ch, show_msg(m)) for ch, m in items])
-        sample = [i for i, o in enumerate(outs) if o.startswith('W:')][:40]
+        sample = [i for i, o in enumerate(outs) if o.endswith('|W')][:40]
         spec = self.ask(['c18.spec.frame\t%s\t%s' % (items[i][0], show_msg(items[i][1])) for i in sample])
         for i, sp in zip(sample, spec):
-            if outs[i][2:] != sp:
+            if outs[i][:-2] != sp:
                 raise RuntimeError('model and Spec disagree on an in-domain frame: ' + show_msg(items[i][1])[:200])
-        return [None if o[2:].startswith('err:') or o.startswith('bad-') else bytes.fromhex(o[2:]) for o in outs]
+        return [None if o.startswith(('err:', 'bad-')) else bytes.fromhex(o[:-2]) for o in outs]
 
     def generate(self, rng, tier, shard, nshards):
         big = tier == 'thorough'
@@ -1034,7 +1066,7 @@ class C18(Prop):
         if op == 'c18.hist':
             # prefixes only: dropping a step from the middle would desynchronise the recorded field values
             for k in range(2, len(a)):
-                if a[k - 1][:1] in 'FSAP':
+                if a[k - 1][:1] in 'FSAPMZGQX':
                     yield mk(op, *a[:k], tag=c.get('tag', ''))
             return
         if op == 'c18.frame':
@@ -1101,7 +1133,7 @@ class C18(Prop):
             pos = int(last.split('@')[1])
             if pos >= 24 and struct.unpack('<I', data[pos - 8:pos - 4])[0] >= (1 << 31):
                 return 'D14-msglen-signed'
-        if op == 'c18.frombytes' and mo == 'W:err:sererr' and len(data) >= 24 and \
+        if op == 'c18.frombytes' and mo == 'err:sererr|W' and len(data) >= 24 and \
                 struct.unpack('<I', data[16:20])[0] >= (1 << 31):
             return 'D14-msglen-signed'
         # D15: the first entry on which the two sides differ is a `headers` frame
